@@ -509,6 +509,21 @@ def float_task(p, cfg, rec):
     emax = (1 << ew) - 1
     try:
         for s in (0, 1):
+            # (done first, so that it also runs when the symbolic part below ends as inconclusive)
+            # tie the definition to the platform on boundary mantissas (concrete, real math module)
+            shims.uninstall(H, ('isinstance', 'int', 'round', 'math'))
+            try:
+                for mval in ([0] if e == emax else [0, 1, (1 << mw) - 1, (1 << mw) - 2, 1 << (mw - 1), (1 << (mw - 1)) + 1, (1 << (mw - 1)) - 1, 0x5555555555555 & ((1 << mw) - 1)]):
+                    pt = (s << (ew + mw)) | (e << mw) | mval
+                    want = struct.unpack(sf, struct.pack(si, pt))[0]
+                    got = getattr(H.FloatingPointHelper, to_f)(pt)
+                    okv = (got == want and _math_copysign(got) == _math_copysign(want))
+                    bk = getattr(H.FloatingPointHelper, to_p)(want)
+                    p.structural('%s %s: helper agrees with struct in both directions' % (fmt, hex(pt)), okv and bk == pt,
+                                 detail={'decoded': repr(got), 'platform': repr(want), 'encoded': hex(bk)})
+                    p.res['traces_validated'] += 1
+            finally:
+                shims.install(H, ('isinstance', 'int', 'round', 'math'))
             m, mv = core.fresh('m', mw)
             ctx.set_assumptions([mv == 0] if e == emax else [])
             p.assumptions = list(ctx.assumptions)
@@ -567,20 +582,6 @@ def float_task(p, cfg, rec):
                 return None
             p.prove_many('%s s=%d e=%d: decoded value equals the IEEE-754 definition' % (fmt, s, e), viol_def, inputs={'m': mv}, replay=replay)
             p.prove_many('%s s=%d e=%d: pattern -> float -> pattern is the identity' % (fmt, s, e), viol_back, inputs={'m': mv}, replay=replay)
-            # tie the definition to the platform on boundary mantissas (concrete, real math module)
-            shims.uninstall(H, ('isinstance', 'int', 'round', 'math'))
-            try:
-                for mval in ([0] if e == emax else [0, 1, (1 << mw) - 1, 1 << (mw - 1), (1 << (mw - 1)) + 1]):
-                    pt = (s << (ew + mw)) | (e << mw) | mval
-                    want = struct.unpack(sf, struct.pack(si, pt))[0]
-                    got = getattr(H.FloatingPointHelper, to_f)(pt)
-                    okv = (got == want and _math_copysign(got) == _math_copysign(want))
-                    bk = getattr(H.FloatingPointHelper, to_p)(want)
-                    p.structural('%s %s: helper agrees with struct in both directions' % (fmt, hex(pt)), okv and bk == pt,
-                                 detail={'decoded': repr(got), 'platform': repr(want), 'encoded': hex(bk)})
-                    p.res['traces_validated'] += 1
-            finally:
-                shims.install(H, ('isinstance', 'int', 'round', 'math'))
     finally:
         shims.uninstall(H, ('int', 'round', 'math'))
     p.res['states'] += 1
